@@ -43,6 +43,7 @@ HEADER_READERS = {'header', 'fieldnames', 'keys_from_args', 'natural_key'}
 TABLE_PARAMS = {'source', 'table', 'left', 'right', 'lft', 'rgt', 'a', 'b', 'inner', 'wrapped', 'tbl', 'other'}
 HARMLESS = {'isinstance', 'callable', 'hasattr', 'id', 'type', 'debug', 'write_source_from_arg', 'read_source_from_arg',
             'super', 'repr', 'str'}
+TABLE_COLLS = {'tables', 'sources'}      # parameters holding several table containers
 TABLE_LAZY = {'data': 'skip'}       # helpers that return a lazy view of a table container
 
 
@@ -70,6 +71,8 @@ class Skel(object):
         self.params = set(params)
         for p in self.params & TABLE_PARAMS:
             self.env[p] = 'table'
+        for p in self.params & TABLE_COLLS:
+            self.env[p] = 'tcoll'
         if not ctor:
             for p in self.params & ITER_PARAMS:
                 self.env[p] = 'coll' if p == 'its' else 'iter1'
@@ -134,7 +137,19 @@ class Skel(object):
 
     def is_src(self, e):
         """an iterator over a source, a collection of them, or a table container"""
-        return self.kind(e) not in (None, 'maybe')
+        return self.kind(e) not in (None, 'maybe', 'tcoll')
+
+    def truth(self, e):
+        """effects of testing the truth value of e: bool() of a table container is len() of it, a full scan"""
+        if e is None:
+            return []
+        if isinstance(e, ast.BoolOp):
+            return [x for v in e.values for x in self.truth(v)]
+        if isinstance(e, ast.UnaryOp) and isinstance(e.op, ast.Not):
+            return self.truth(e.operand)
+        if self.kind(e) == 'table':
+            return ['Eager']
+        return self.expr(e)
 
     def _targets(self, t):
         if isinstance(t, ast.Name):
@@ -156,7 +171,7 @@ class Skel(object):
 
     @staticmethod
     def _rank(x):
-        return 5 if isinstance(x, tuple) else {None: 0, 'maybe': 1, 'table': 1, 'iter1': 2, 'coll': 3, 'skip': 4}[x]
+        return 5 if isinstance(x, tuple) else {None: 0, 'maybe': 1, 'table': 1, 'tcoll': 1, 'iter1': 2, 'coll': 3, 'skip': 4}[x]
 
     def _join(self, e1, e2):
         out = dict(e1)
@@ -183,6 +198,12 @@ class Skel(object):
             for nm in names:
                 if self.env.get(nm) not in (None, 'table') and k is None and not isinstance(value, ast.Name):
                     self.env.pop(nm, None)        # rebound to something that is not an iterator
+
+    def _bind_tables(self, target, it):
+        if self.kind(it) == 'tcoll' or (isinstance(it, ast.Call) and _call_name(it) in ('enumerate', 'zip', 'reversed')
+                                        and any(self.kind(a) == 'tcoll' for a in it.args)):
+            for nm in self._targets(target):
+                self.env[nm] = 'table'
 
     def _over_coll(self, e):
         return self.kind(e) == 'coll' or (isinstance(e, ast.Call) and _call_name(e) in ('zip', 'izip', 'enumerate')
@@ -236,6 +257,7 @@ class Skel(object):
         if isinstance(e, (ast.ListComp, ast.SetComp, ast.DictComp, ast.GeneratorExp)):
             eager = not isinstance(e, ast.GeneratorExp)
             for g in e.generators:
+                self._bind_tables(g.target, g.iter)
                 if self._over_coll(g.iter):
                     for nm in self._targets(g.target):
                         self.env[nm] = 'iter1'
@@ -252,7 +274,7 @@ class Skel(object):
                 if not self.is_src(g.iter):
                     body += self.expr(g.iter)
                 for c in g.ifs:
-                    body += self.expr(c)
+                    body += self.truth(c)
             elts = [e.key, e.value] if isinstance(e, ast.DictComp) else [e.elt]
             for x in elts:
                 body += self.expr(x)
@@ -331,7 +353,7 @@ class Skel(object):
         if isinstance(s, (ast.Pass, ast.Import, ast.ImportFrom, ast.Global, ast.Nonlocal, ast.Assert, ast.Delete)):
             return self.expr(s.test) if isinstance(s, ast.Assert) else []
         if isinstance(s, ast.If):
-            pre = self.expr(s.test)
+            pre = self.truth(s.test)
             env0 = dict(self.env)
             a = self.block(s.body)
             env_a = self.env
@@ -340,6 +362,7 @@ class Skel(object):
             self.env = self._join(env_a, self.env)
             return pre + ['Alt (%s) (%s)' % (a, b)]
         if isinstance(s, ast.For):
+            self._bind_tables(s.target, s.iter)
             if self._over_coll(s.iter):
                 for nm in self._targets(s.target):
                     self.env[nm] = 'iter1'
@@ -366,7 +389,7 @@ class Skel(object):
             wn = self._while_next(s)
             if wn is not None:
                 return [wn]
-            cond = self.expr(s.test)
+            cond = self.truth(s.test)
             out = ['Rep (%s)' % seq(cond + [self.block(s.body)])]
             self.env = self._join(env0, self.env)
             if s.orelse:
